@@ -11,6 +11,8 @@ names or that an asymmetric fast path would break:
 * `compare_mirror`         LT a b = GT b a and SLT a b = SGT b a across representations;
 * `iszero_is_eq_zero`      ISZERO a = EQ a 0;
 * `self_cancel`            SUB a a and XOR a a denote 0;
+* `oversize_shift`, `byte_out_of_range`, `exp_zero_exponent`, `sdiv_overflow_wraps`: the corner regions the
+                           property names (shifts ≥ 256, BYTE index ≥ 32, `0^0`, `-2^255 / -1`), for every representation;
 
 All are about the generated model `execWord` (tied to bitvec.py / sevm.py by tools/props/c06.py); none adds a
 hypothesis beyond those of `op_exact`.
@@ -145,6 +147,54 @@ theorem self_cancel {s : Simp} (hs : SimpSound s) {I : Interp} (hI : I.Std) (cfg
   · obtain ⟨r, aux, he, _, _, hd, _⟩ := bin_exact hs hI cfg .XOR rfl (by intro h; cases h) a a ha ha
     exact ⟨r, aux, he, by rw [hd]; simp [specOp, Word.xor]⟩
 
+/-! ### corner regions named by the property: oversize shifts, BYTE index, EXP 0, SDIV overflow -/
+
+/-- **oversize_shift.** SHL / SHR by an amount denoting ≥ 256 (in any representation: `2^64`, `2^255`, a term)
+    denote 0; SAR denotes 0 or `2^256 - 1` according to the sign of the shifted word. No exception, no
+    `x << 2^255`-sized integer (promptness is `C06.op_prompt`). -/
+theorem oversize_shift {s : Simp} (hs : SimpSound s) {I : Interp} (hI : I.Std) (cfg : WordCfg)
+    (sh x : HV) (hsh : sh.WF ∧ sh.IsWord) (hx : x.WF ∧ x.IsWord) (hge : 256 ≤ sh.denote I) :
+    (∃ r aux, execWord s cfg .SHL [sh, x] = .ok (r, aux) ∧ r.denote I = 0) ∧
+    (∃ r aux, execWord s cfg .SHR [sh, x] = .ok (r, aux) ∧ r.denote I = 0) ∧
+    (∃ r aux, execWord s cfg .SAR [sh, x] = .ok (r, aux) ∧
+      r.denote I = if toInt 256 (x.denote I) < 0 then Word.W - 1 else 0) := by
+  refine ⟨?_, ?_, ?_⟩
+  · obtain ⟨r, aux, he, _, _, hd, _⟩ := bin_exact hs hI cfg .SHL rfl (by intro h; cases h) sh x hsh hx
+    exact ⟨r, aux, he, by rw [hd]; simp [specOp, Word.shl, hge]⟩
+  · obtain ⟨r, aux, he, _, _, hd, _⟩ := bin_exact hs hI cfg .SHR rfl (by intro h; cases h) sh x hsh hx
+    exact ⟨r, aux, he, by rw [hd]; simp [specOp, Word.shr, hge]⟩
+  · obtain ⟨r, aux, he, _, _, hd, _⟩ := bin_exact hs hI cfg .SAR rfl (by intro h; cases h) sh x hsh hx
+    exact ⟨r, aux, he, by rw [hd]; simp [specOp, Word.sar, hge]⟩
+
+/-- **byte_out_of_range.** BYTE with an index denoting ≥ 32 denotes 0. -/
+theorem byte_out_of_range {s : Simp} (hs : SimpSound s) {I : Interp} (hI : I.Std) (cfg : WordCfg)
+    (i x : HV) (hi : i.WF ∧ i.IsWord) (hx : x.WF ∧ x.IsWord) (hge : 32 ≤ i.denote I) :
+    ∃ r aux, execWord s cfg .BYTE [i, x] = .ok (r, aux) ∧ r.denote I = 0 := by
+  obtain ⟨r, aux, he, _, _, hd, _⟩ := bin_exact hs hI cfg .BYTE rfl (by intro h; cases h) i x hi hx
+  exact ⟨r, aux, he, by rw [hd]; simp [specOp, Word.byte, hge]⟩
+
+/-- **exp_zero_exponent.** `EXP x 0` denotes 1 for every base, including `0 ^ 0`, whether the exponent is the
+    literal 0, a Bool-typed false or a term evaluating to 0 (the `f_evm_exp` abstraction under `I.Std`). -/
+theorem exp_zero_exponent {s : Simp} (hs : SimpSound s) {I : Interp} (hI : I.Std) (cfg : WordCfg)
+    (x e : HV) (hx : x.WF ∧ x.IsWord) (he0 : e.WF ∧ e.IsWord) (hz : e.denote I = 0) :
+    ∃ r aux, execWord s cfg .EXP [x, e] = .ok (r, aux) ∧ r.denote I = 1 := by
+  obtain ⟨r, aux, he, _, _, hd, _⟩ := bin_exact hs hI cfg .EXP rfl (by intro h; cases h) x e hx he0
+  refine ⟨r, aux, he, ?_⟩
+  rw [hd]
+  simp only [specOp, Word.exp, hz, Nat.pow_zero]
+  decide
+
+/-- **sdiv_overflow_wraps.** `SDIV (-2^255) (-1)` denotes `-2^255` (the one overflowing signed division), for
+    operands of any representation with those denotations. -/
+theorem sdiv_overflow_wraps {s : Simp} (hs : SimpSound s) {I : Interp} (hI : I.Std) (cfg : WordCfg)
+    (a b : HV) (ha : a.WF ∧ a.IsWord) (hb : b.WF ∧ b.IsWord)
+    (ha0 : a.denote I = 2 ^ 255) (hb0 : b.denote I = 2 ^ 256 - 1) :
+    ∃ r aux, execWord s cfg .SDIV [a, b] = .ok (r, aux) ∧ r.denote I = 2 ^ 255 := by
+  obtain ⟨r, aux, he, _, _, hd, _⟩ := bin_exact hs hI cfg .SDIV rfl (by intro h; cases h) a b ha hb
+  refine ⟨r, aux, he, ?_⟩
+  rw [hd, ha0, hb0]
+  decide +kernel
+
 /-! ### non-vacuity -/
 
 /-- DIV of a symbolic Bool by a *term* that evaluates to 0 under `I0` (`x ↦ 0`): the abstraction path, not the
@@ -163,5 +213,15 @@ example : ∃ r aux r' aux',
     r.denote exI = r'.denote exI :=
   commutative_ops C06.foldSimp_sound exI_std {} .AND (Or.inr (Or.inr (Or.inl rfl))) _ _
     (word_bool trivial) (word_var "y")
+
+/-- SHL of a term by the int-backed amount `2^255`, and SDIV of the term `y = 2^255` (under `exI`) by int-backed -1 -/
+example : ∃ r aux, execWord foldSimp {} .SHL [.bv 256 (.con (2 ^ 255)), .bv 256 (.sym (.var "y" 256))] = .ok (r, aux) ∧
+    r.denote exI = 0 :=
+  (oversize_shift C06.foldSimp_sound exI_std {} _ _ (word_con (by decide)) (word_var "y") (by decide +kernel)).1
+
+example : ∃ r aux, execWord idSimp {} .SDIV [.bv 256 (.sym (.var "y" 256)), .bv 256 (.con (2 ^ 256 - 1))] = .ok (r, aux) ∧
+    r.denote exI = 2 ^ 255 :=
+  sdiv_overflow_wraps C06.idSimp_sound exI_std {} _ _ (word_var "y") (word_con (by decide))
+    (by decide +kernel) (by decide +kernel)
 
 end HalmosVerif.Props.C06Algebra
